@@ -1,6 +1,7 @@
 #include "dsplib/resample.h"
 
 #include <cassert>
+#include <cmath>
 
 namespace dsplib {
 
@@ -32,6 +33,12 @@ FIRRateConverter::FIRRateConverter(int interp, int decim, const arr_real& h)
 
     assert(int(h_.size()) == interp_);
     assert(int(xidxs_.size()) == interp_);
+
+    //group delay of the prototype filter counted in output samples
+    //(the first output sample is taken at phase 'decim - 1' of the interpolated stream)
+    const double centre = (h.size() - 1) / 2.0;
+    const int d = int(std::lround((centre - (decim_ - 1)) / decim_));
+    delay_ = (d > 0) ? d : 0;
 }
 
 arr_real FIRRateConverter::process(const arr_real& in) {
@@ -64,8 +71,7 @@ arr_real FIRRateConverter::process(const arr_real& in) {
 }
 
 int FIRRateConverter::delay() const noexcept {
-    //TODO: must be N/2
-    return sublen_ / 2 + 1;
+    return delay_;
 }
 
 int FIRRateConverter::interp_rate() const noexcept {
